@@ -13,11 +13,20 @@ From PV Require Export C18.Kernel.
 
 Inductive resv := RNone | RInt (z : Z) | RPair (a b : Z) | RList (l : list Z).
 
+(* the shape of the [cpus] argument of cpu_affinity: containers that can be traversed again
+   and again, and one-shot iterables (an iterator, a generator, map(), itertools.chain, a
+   file-like line iterator) whose second traversal yields nothing *)
+Inductive shape := SList | STuple | SSet | SFrozenset | SRange | SDictKeys
+                 | SIter | SGenerator | SMap | SChain | SLines.
+Definition oneshot (s : shape) : bool :=
+  match s with SIter | SGenerator | SMap | SChain | SLines => true | _ => false end.
+
 (* the public calls: None = argument omitted *)
 Inductive req :=
 | Nice (value : option Z)
 | Ionice (ioclass value : option Z)
 | Affinity (cpus : option (list Z))
+| AffinityIt (s : shape) (items : list Z)   (* cpu_affinity(<iterable of that shape yielding items>) *)
 | Rlimit (res : Z) (limits : option (list Z))
 | RlimitScalar (res v : Z).      (* rlimit(res, v) with an int instead of a sequence *)
 
@@ -210,6 +219,21 @@ Definition cpu_affinity (pid : Z) (cpus : option (list Z)) (k : kernel) : outcom
   | Some l => pl_cpu_affinity_set pid (dedup l) k
   end.
 
+(* an iterable argument: what it yields on its first traversal, and whether that happened *)
+Record iterarg := { a_shape : shape; a_items : list Z; a_consumed : bool }.
+Definition iterate (a : iterarg) : list Z * iterarg :=
+  if oneshot (a_shape a)
+  then ((if a_consumed a then [] else a_items a), {| a_shape := a_shape a; a_items := a_items a; a_consumed := true |})
+  else (a_items a, a).
+(* bool(arg): sized containers are falsy when empty; iterator objects are always truthy *)
+Definition truthy (a : iterarg) : bool :=
+  if oneshot (a_shape a) then true else match a_items a with [] => false | _ => true end.
+(* Process.cpu_affinity(cpus) on an iterable: [if not cpus] does not traverse it,
+   [list(set(cpus))] traverses it once; the platform layer gets a list *)
+Definition cpu_affinity_it (pid : Z) (a : iterarg) (k : kernel) : outcome resv * kernel :=
+  if negb (truthy a) then pl_cpu_affinity_set pid (dedup (zrange 0 1024)) k
+  else let (items, _) := iterate a in pl_cpu_affinity_set pid (dedup items) k.
+
 (* ---------------------------------------------------------------- rlimit *)
 (* resource.prlimit(pid, resource[, limits]) of CPython over prlimit(2).  (psutil has no C
    wrapper of its own here.)  py2rlimit: PyLong_AsLongLong (OverflowError outside a C long long)
@@ -253,6 +277,7 @@ Definition run_req (pid : Z) (r : req) (k : kernel) : outcome resv * kernel :=
   | Nice v => nice pid v k
   | Ionice c v => ionice pid c v k
   | Affinity cpus => cpu_affinity pid cpus k
+  | AffinityIt sh items => cpu_affinity_it pid {| a_shape := sh; a_items := items; a_consumed := false |} k
   | Rlimit res lim => rlimit pid res lim k
   | RlimitScalar res v => rlimit_scalar pid res v k
   end.
